@@ -32,6 +32,9 @@ type Ledger struct {
 	Property    string   `json:"property"`
 	Obligations []string `json:"obligations"`
 	Functions   []string `json:"functions"`
+	// Fit: the shape of each function its contract's internal annotations were written for (loop kinds by
+	// ordinal, inlined helpers without contract entry, what the contract's identifiers name)
+	Fit map[string]*FitInfo `json:"fit,omitempty"`
 }
 
 type sample struct {
@@ -63,6 +66,9 @@ type checkCtx struct {
 	timeoutS         int
 	known            []KnownFinding
 	ledger           *Ledger
+	fits             map[string]*FitInfo // shape of each function checked in this run
+	misfit           map[string]string   // function -> why its contract's internal annotations no longer fit
+	misfitPrinted    map[string]bool
 	verifDir         string
 	samples          []sample
 	funcs            []funcReport
@@ -156,7 +162,9 @@ func cmdCheck(args []string) {
 				// obligation on the pinned tree and produces none now was satisfied vacuously: the
 				// call site or exit it speaks about no longer exists. Auto-numbered safety
 				// obligations are not treated this way (their names shift with harmless edits).
-				if stableObligationName(o) && cc.knownFor(o) == nil {
+				if stableObligationName(o) && cc.knownFor(o) == nil && cc.misfit[oblFunc(o)] != "" {
+					cc.undecided = append(cc.undecided, o+" (no longer generated; annotations no longer fit: "+cc.misfit[oblFunc(o)]+")")
+				} else if stableObligationName(o) && cc.knownFor(o) == nil {
 					path := cc.writeReplay(o, "obligation discharged on the pinned tree is no longer generated (the call site / exit it constrains has disappeared)", &SolverAnswer{Status: "not-generated"}, nil)
 					cc.viol = append(cc.viol, fmt.Sprintf("VIOLATION property=%s replay=%s no-failing-input-found", cc.prop, path))
 				}
@@ -242,6 +250,12 @@ func (cc *checkCtx) saveLedger() {
 		}
 	}
 	sort.Strings(l.Obligations)
+	l.Fit = map[string]*FitInfo{}
+	for _, f := range cc.funcs {
+		if f.Status == "verified" && cc.fits[f.Function] != nil {
+			l.Fit[f.Function] = cc.fits[f.Function]
+		}
+	}
 	os.MkdirAll(filepath.Join(cc.verifDir, "ledger"), 0o755)
 	data, _ := json.MarshalIndent(l, "", " ")
 	os.WriteFile(filepath.Join(cc.verifDir, "ledger", cc.prop+".json"), data, 0o644)
@@ -338,6 +352,18 @@ func (cc *checkCtx) verifyFn(name string, fn *ssa.Function) {
 	}
 	for _, n := range res.Notes {
 		cc.notes[n] = true
+	}
+	if cc.fits == nil {
+		cc.fits = map[string]*FitInfo{}
+		cc.misfit = map[string]string{}
+	}
+	cc.fits[name] = res.Fit
+	if cc.ledger != nil && cc.ledger.Fit != nil {
+		if why := fitDiff(cc.ledger.Fit[name], res.Fit); why != "" {
+			cc.misfit[name] = why
+			cc.misfit[res.Func] = why
+			cc.notes[name+": the contract's internal annotations no longer fit the code ("+why+"); obligations of this function that fail without a counterexample are reported as undecided"] = true
+		}
 	}
 	if res.Err != nil {
 		rep.Status = "outside-subset"
@@ -470,14 +496,33 @@ func (cc *checkCtx) handleFailure(x *Exec, fn *ssa.Function, c *Contract, r *Obl
 }
 
 func (cc *checkCtx) reportFailure(x *Exec, r *OblResult, inLedger bool) {
+	why := cc.misfit[oblFunc(r.O.Name)]
+	demote := func() {
+		// The function's loops, helpers or the variables its contract names have changed shape since the
+		// contract was proved: the loop clauses and local names in it may speak about something else now, so
+		// a proof that no longer goes through says nothing yet. Only a counterexample that replays on the
+		// real code is believed for such a function.
+		cc.undecided = append(cc.undecided, r.O.Name+" ("+r.Ans.Status+"; annotations no longer fit: "+why+")")
+		if !cc.misfitPrinted[oblFunc(r.O.Name)] {
+			if cc.misfitPrinted == nil {
+				cc.misfitPrinted = map[string]bool{}
+			}
+			cc.misfitPrinted[oblFunc(r.O.Name)] = true
+			fmt.Printf("UNDECIDED property=%s function=%s reason=annotations-no-longer-fit (%s)\n", cc.prop, oblFunc(r.O.Name), why)
+		}
+	}
 	switch {
 	case r.Ans.Status == "sat":
 		path, reproduced := cc.replay(x, r)
 		if reproduced {
 			cc.viol = append(cc.viol, fmt.Sprintf("VIOLATION property=%s replay=%s", cc.prop, path))
+		} else if why != "" {
+			demote()
 		} else {
 			cc.viol = append(cc.viol, fmt.Sprintf("VIOLATION property=%s replay=%s no-failing-input-found", cc.prop, path))
 		}
+	case why != "" && (inLedger || (contractKinds[r.O.Kind] && cc.fnInLedger(oblFunc(r.O.Name)))):
+		demote()
 	case inLedger:
 		path := cc.writeReplay(r.O.Name, "obligation discharged on the pinned tree is no longer provable ("+r.Ans.Status+")", r.Ans, r.O)
 		cc.viol = append(cc.viol, fmt.Sprintf("VIOLATION property=%s replay=%s no-failing-input-found", cc.prop, path))
@@ -738,4 +783,46 @@ func loopShapeMismatch(msg string) bool {
 		}
 	}
 	return false
+}
+
+// fitDiff says why a function no longer has the shape its contract's internal annotations were written for
+// ("" when it still has): a loop was added or changed kind (loop clauses are keyed by ordinal), a helper without
+// any contract entry is now inlined into it (code the clauses speak about may have moved there), or an identifier
+// of the contract names another kind of variable (a local was renamed and the name now denotes a parameter).
+// A loop that merely disappeared is not a misfit by itself: the clauses written for it are dropped and the
+// postconditions decide (a removed check must not go unnoticed).
+func fitDiff(old, cur *FitInfo) string {
+	if old == nil || cur == nil {
+		return ""
+	}
+	var why []string
+	oldH := map[string]bool{}
+	for _, h := range old.Helpers {
+		oldH[h] = true
+	}
+	for _, h := range cur.Helpers {
+		if !oldH[h] {
+			why = append(why, "new helper without contract: "+h)
+		}
+	}
+	if len(cur.Loops) > len(old.Loops) {
+		why = append(why, fmt.Sprintf("%d loops where the contract was written for %d", len(cur.Loops), len(old.Loops)))
+	} else if len(cur.Loops) == len(old.Loops) {
+		for i := range cur.Loops {
+			if cur.Loops[i] != old.Loops[i] {
+				why = append(why, fmt.Sprintf("loop %d is %s, was %s", i+1, cur.Loops[i], old.Loops[i]))
+			}
+		}
+	}
+	var names []string
+	for n := range old.Idents {
+		names = append(names, n)
+	}
+	sort.Strings(names)
+	for _, n := range names {
+		if k, ok := cur.Idents[n]; ok && k != old.Idents[n] {
+			why = append(why, fmt.Sprintf("%s names a %s, was %s", n, k, old.Idents[n]))
+		}
+	}
+	return strings.Join(why, "; ")
 }
